@@ -178,6 +178,10 @@ type tScreen struct {
 	title        string
 	setClipboard string
 
+	// lifecycle serializes engage and disengage (Init, Suspend, Resume,
+	// Fini) against each other; it is taken before the screen lock.
+	lifecycle sync.Mutex
+
 	sync.Mutex
 }
 
@@ -2097,6 +2101,8 @@ func (t *tScreen) Tty() (Tty, bool) {
 // Think of this is as tcell "engaging" the clutch, as it's going to be driving the
 // terminal interface.
 func (t *tScreen) engage() error {
+	t.lifecycle.Lock()
+	defer t.lifecycle.Unlock()
 	t.Lock()
 	defer t.Unlock()
 	if t.tty == nil {
@@ -2158,6 +2164,9 @@ func (t *tScreen) engage() error {
 // can take over the terminal interface.  This restores the TTY mode that was
 // present when the application was first started.
 func (t *tScreen) disengage() {
+
+	t.lifecycle.Lock()
+	defer t.lifecycle.Unlock()
 
 	t.Lock()
 	if !t.running {
